@@ -84,3 +84,15 @@ META["C11"] = {
     "level_text": "All insertion orders of up to 6 (quick) / 7 (thorough) keys with every single removal by key and by iterator, plus random sequences over 32 keys with user and default comparator (far-apart 64-bit pointer values); sorted in-order, BST-consistent pre/post order, destructor identity and allocator accounting checked at every step.",
     "level_note": "Trusts the std::map model under the mathematical order, ASan/UBSan, the tracking allocator.",
 }
+
+def B(prop, cases_quick=2500, cases_thorough=40000):
+    return {"stages": [A("actor", "actor1", cases={"quick": cases_quick, "thorough": cases_thorough})], "assumptions": ACTOR_ASSUMPTIONS}
+
+ACTOR_ASSUMPTIONS = [
+    "generated programs respect the documented preconditions: handles passed are live references owned by the caller; a descriptor number is registered in at most one module at a time; modules are driven from their own thread",
+    "module / pub-sub calls issued while a DENY_CTX module's callback is innermost, self-directed life-cycle calls inside evaluation callbacks, and replacing the last module of an idle non-persistent context are not generated (spec corners / known exclusions, counted in the evidence)",
+    "libc regcomp/regexec (POSIX basic syntax) decide which subscriptions match a topic",
+    "a failure of another property's rule ends the case without verdict for this property (counted as foreign-rule:<id>)",
+]
+for _p in ["C01", "C02", "C03", "C04", "C07", "C08", "C09", "C13", "C15", "C16", "C17", "C19", "C20"]:
+    CHECKS[_p] = B(_p)
